@@ -1,4 +1,4 @@
-import BfeVerif.C32.Proofs
+import BfeVerif.C32.ClassProofs
 /-!
   C32 — HTTP/2 frames round-trip and malformed frames are rejected.  Property theorems only.
 
@@ -630,6 +630,101 @@ theorem C32_sequencing_partial (fr : Framer) (fh : FH) (p : Bytes)
   | ok f0 =>
     simp only [hord]
     exact ⟨_, rfl, fun _ => rfl⟩
+
+/-- **C32 (model = specification, per frame)**: for EVERY header, payload and framer state, the
+    class of what `ReadFrame` does with the frame (accept / connection error / stream error / io error;
+    SETTINGS judged after the receiver's `Setting.Valid` loop) is exactly what the RFC table `specFrame`
+    demands — except in the one situation of the known finding (a frame the table classifies as a
+    stream error arriving inside another header block). -/
+theorem C32_class_eq_spec_partial (fr : Framer) (fh : FH) (p : Bytes) (hlen : p.length = fh.length)
+    (hk : ¬ (seqBad fr.lastHeaderStream fh = true ∧ specCore fh p = .streamErr)) :
+    classOf (acceptFrame fr fh p).1 = specFrame fr.lastHeaderStream fh p := by
+  have hcls := cls_parseFrame fh p hlen
+  unfold specFrame
+  by_cases hbad : seqBad fr.lastHeaderStream fh = true
+  · -- out of order: checkFrameOrder answers with a connection error unless the parser already failed
+    obtain ⟨e, he, _⟩ := C32_sequencing_partial fr fh p hbad
+    simp only [hbad, if_true]
+    unfold acceptFrame at he ⊢
+    cases hp : parseFrame fh p with
+    | error e' =>
+      rw [hp] at hcls
+      simp only []
+      rw [← hcls]
+      cases e' with
+      | conn c => rfl
+      | stream s c => exact absurd ⟨hbad, by rw [← hcls]; rfl⟩ hk
+      | eof => rfl
+      | ueof => rfl
+      | tooLarge => exact absurd hcls.symm (specCore_ne_tooLarge fh p)
+    | ok f0 =>
+      rw [hp] at he hcls
+      simp only [] at he ⊢
+      cases ho : checkFrameOrder fr fh with
+      | ok fr0 => rw [ho] at he; simp at he
+      | error e0 =>
+        rw [ho] at he
+        simp only [] at he ⊢
+        have he0 : e0 = .conn cProtocol := by
+          unfold checkFrameOrder at ho
+          repeat' split at ho
+          all_goals first | (exact (Except.error.inj ho).symm) | cases ho
+        subst he0
+        rw [← hcls]
+        simp only [classOf]
+        split <;> simp
+  · have hb : seqBad fr.lastHeaderStream fh = false := by simpa using hbad
+    simp only [hb, Bool.false_eq_true, if_false]
+    have hord : checkFrameOrder fr fh = .ok (orderNext fr fh) := by
+      apply order_ok
+      unfold seqBad at hb
+      unfold orderOK
+      by_cases h0 : fr.lastHeaderStream = 0
+      · simp only [h0, bne_self_eq_false, Bool.false_and, Bool.false_or, beq_self_eq_true, Bool.true_and,
+          beq_eq_false_iff_ne, ne_eq] at hb
+        simp [h0, hb]
+      · have hne : (fr.lastHeaderStream != 0) = true := by simpa using h0
+        have hz : (fr.lastHeaderStream == 0) = false := by simpa using h0
+        simp only [hne, hz, Bool.true_and, Bool.false_and, Bool.or_false, Bool.or_eq_false_iff, bne_eq_false_iff_eq] at hb
+        simp [h0, hb.1, hb.2]
+    unfold acceptFrame
+    cases hp : parseFrame fh p with
+    | error e' => rw [hp] at hcls; exact hcls
+    | ok f0 => rw [hp] at hcls; simp only [hord]; exact hcls
+
+/-- **C32 (completeness — the converse of `C32_rules`)**: every frame the RFC table accepts is returned
+    by `ReadFrame` (and passes the SETTINGS value loop).  Together with `C32_rules`: the framer rejects
+    EXACTLY the malformed frames. -/
+theorem C32_complete (fr : Framer) (fh : FH) (p : Bytes) (hlen : p.length = fh.length)
+    (hs : specFrame fr.lastHeaderStream fh p = .accept) :
+    ∃ f, acceptFrame fr fh p = (.ok f, orderNext fr fh) ∧ postCheck f = none := by
+  have hk : ¬ (seqBad fr.lastHeaderStream fh = true ∧ specCore fh p = .streamErr) := by
+    rintro ⟨hb, hc⟩
+    unfold specFrame at hs
+    simp [hb, hc] at hs
+  have hcls := C32_class_eq_spec_partial fr fh p hlen hk
+  rw [hs] at hcls
+  cases hr : acceptFrame fr fh p with
+  | mk r fr' =>
+    rw [hr] at hcls
+    simp only [] at hcls
+    cases r with
+    | error e => cases e <;> simp [classOf] at hcls
+    | ok f =>
+      have hseq := C32_sequencing fr fr' fh p f hr
+      refine ⟨f, by rw [hseq.2.2], ?_⟩
+      simp only [classOf] at hcls
+      split at hcls
+      · cases hcls
+      · rename_i hn; simpa using hn
+
+/-- exact accept/reject characterisation -/
+theorem C32_accept_iff (fr : Framer) (fh : FH) (p : Bytes) (hlen : p.length = fh.length) :
+    (∃ f fr', acceptFrame fr fh p = (.ok f, fr') ∧ postCheck f = none) ↔
+      specFrame fr.lastHeaderStream fh p = .accept := by
+  constructor
+  · rintro ⟨f, fr', h, hp⟩; exact C32_rules fr fr' fh p f hlen h hp
+  · intro h; obtain ⟨f, hf, hp⟩ := C32_complete fr fh p hlen h; exact ⟨f, _, hf, hp⟩
 
 /-! Non-vacuity -/
 example : expectRT (.headers 3 true false 2 ⟨1, true, 200⟩ [1, 2, 3]) =
